@@ -170,6 +170,12 @@ func (g *Gen) NsLog(lines int) ([]*Case, NsNames) {
 		}
 		cs := g.NsCase(n, x.db, x.coll, verb, car, i%4)
 		out = append(out, cs)
+		if i%9 == 4 {
+			// the next batch of a database-wide change stream: the cursor lives in the command namespace, so
+			// attr.ns is "<db>.$cmd.aggregate" and getMore names the collection "$cmd.aggregate"
+			gm := ObjN("getMore", KeepN("8450170943150897632"), "collection", StrN("$cmd.aggregate").With(&Tag{Role: NsColl}), "batchSize", KeepI(101), "lsid", g.lsid(), "$db", StrN(x.db).With(&Tag{Role: NsDB}))
+			out = append(out, g.Case(CaseOpts{Verb: "getMore", Carrier: "command", Comp: "COMMAND", DB: x.db, Coll: "$cmd.aggregate", Cmd: gm}))
+		}
 		if cs.Carrier == "originatingCommand" && g.chance(0.7) {
 			// the next batches of the same cursor repeat the originating command verbatim
 			out = append(out, cs)
